@@ -307,7 +307,9 @@ def _pyfmt(v):
     if isinstance(v, (str, int, float)):
         return v
     if isinstance(v, dict):
-        return {k: _pyfmt(x) for k, x in v.items()}
+        return {_pyfmt(k): _pyfmt(x) for k, x in v.items()}
+    if v is None or isinstance(v, bool):
+        return v
     raise ValueError
 
 
@@ -547,6 +549,10 @@ def truth(I, v):
         return sp.true if v else sp.false
     if v is None:
         return sp.false
+    if isinstance(v, sp.Symbol) and (v.is_positive or v.is_negative):
+        return sp.true          # (sympy's Symbol is also a Boolean: a number symbol of known sign is decided here)
+    if isinstance(v, sp.Symbol) and v.is_zero:
+        return sp.false
     if isinstance(v, sp.logic.boolalg.Boolean):
         return v
     if isinstance(v, (str, list, tuple, dict, set)):
@@ -754,7 +760,15 @@ def value_attr(I, obj, name):
                 raise SymRaise("KeyError", repr(k))
             return Builtin("pop", pop)
         if name == "update":
-            return Builtin("update", lambda o: obj.update(o))
+            def update(o=None, **kw):
+                if isinstance(o, dict):
+                    obj.update(o)
+                elif o is not None:
+                    for pair in iterate(I, o):
+                        k, v_ = iterate(I, pair)
+                        obj[_key(k)] = v_
+                obj.update(kw)
+            return Builtin("update", update)
         if name == "copy":
             return Builtin("copy", lambda: dict(obj))
         if name == "setdefault":
@@ -896,6 +910,24 @@ def value_attr(I, obj, name):
                 t._fields, t._tname = obj._fields, obj._tname
                 return t
             return Builtin("_replace", _replace)
+    if isinstance(obj, (tuple, list, dict, str, Vec)) and name in ("__getitem__", "__contains__", "__len__", "__iter__") \
+            or isinstance(obj, (list, dict)) and name == "__setitem__":
+        # bound special methods of containers (hoisted into locals by performance-minded code)
+        if name == "__getitem__":
+            return Builtin(name, lambda k: subscript(I, obj, k))
+        if name == "__contains__":
+            return Builtin(name, lambda k: compare(I, ast.In(), k, obj))
+        if name == "__len__":
+            return Builtin(name, lambda: I.builtins["len"].fn(obj))
+        if name == "__iter__":
+            return Builtin(name, lambda: I.builtins["iter"].fn(obj))
+
+        def setitem(k, v_):
+            if isinstance(obj, dict):
+                obj[dict_key(I, obj, k)] = v_
+            else:
+                obj[concrete_int(k)] = v_
+        return Builtin(name, setitem)
     if isinstance(obj, tuple) or isinstance(obj, list):
         if name == "index":
             return Builtin("index", lambda x: [i for i, y in enumerate(obj) if _same(x, y)][0])
@@ -1037,6 +1069,8 @@ def value_attr(I, obj, name):
         return obj.name
     if isinstance(obj, Builtin) and (obj.name + "." + name) in I.builtins:
         return I.builtins[obj.name + "." + name]          # dict.fromkeys, ...
+    if isinstance(obj, Builtin) and obj.name == "itertools.chain" and name == "from_iterable":
+        return external(I, "itertools.chain.from_iterable")
     raise SymRaise("AttributeError", f"{type(obj).__name__} value has no attribute {name}")
 
 
@@ -1343,6 +1377,7 @@ def make_builtins(I):
     reg("tuple", lambda x=(): tuple(iterate(I, x)))
     reg("list", lambda x=(): list(iterate(I, x)))
     reg("dict", lambda *a, **k: dict(*[iterate(I, x) if not isinstance(x, dict) else x for x in a], **k))
+    reg("str.maketrans", lambda *a: str.maketrans(*[_pyfmt(x) for x in a]))
     reg("dict.fromkeys", lambda ks, v=None: {k_: v for k_ in iterate(I, ks)})
     reg("set", lambda x=(): set(iterate(I, x)))
     def b_zip(*a, strict=False):
@@ -1457,8 +1492,12 @@ def external(I, dotted):
         return Builtin(dotted, lambda *ks: Builtin("itemgetter", (lambda x: subscript(I, x, ks[0])) if len(ks) == 1
                                                    else (lambda x: tuple(subscript(I, x, k_) for k_ in ks))))
     if dotted == "operator.attrgetter":
-        return Builtin(dotted, lambda *ns: Builtin("attrgetter", (lambda x: I.getattr(x, ns[0])) if len(ns) == 1
-                                                   else (lambda x: tuple(I.getattr(x, n_) for n_ in ns))))
+        def dotted_get(x, path):
+            for part in path.split("."):
+                x = I.getattr(x, part)
+            return x
+        return Builtin(dotted, lambda *ns: Builtin("attrgetter", (lambda x: dotted_get(x, ns[0])) if len(ns) == 1
+                                                   else (lambda x: tuple(dotted_get(x, n_) for n_ in ns))))
     if mod == "operator" and name in ("add", "mul", "sub", "truediv"):
         opn = {"add": ast.Add, "mul": ast.Mult, "sub": ast.Sub, "truediv": ast.Div}[name]
         return Builtin(dotted, lambda a, b: binop(I, opn(), a, b))
@@ -1540,15 +1579,22 @@ def external(I, dotted):
         import itertools as _it2
         return Builtin(dotted, lambda it, r=None: GenVal([tuple(c) for c in _it2.permutations(iterate(I, it), None if r is None else concrete_int(r))]))
     if dotted == "itertools.chain":
-        return Builtin(dotted, lambda *its: [x for it in its for x in iterate(I, it)])
+        return Builtin(dotted, lambda *its: GenVal([x for it in its for x in iterate(I, it)]))
+    if dotted == "itertools.chain.from_iterable":
+        return Builtin(dotted, lambda its: GenVal([x for it in iterate(I, its) for x in iterate(I, it)]))
     if dotted == "itertools.product":
         import itertools as _it
         return Builtin(dotted, lambda *its: [tuple(t) for t in _it.product(*[iterate(I, x) for x in its])])
     if dotted == "itertools.islice":
         return Builtin(dotted, lambda it, *a: iterate(I, it)[slice(*[None if x is None else concrete_int(x) for x in a])])
     if dotted == "itertools.accumulate":
-        def accumulate(it, func=None):
+        _none = object()
+
+        def accumulate(it, func=None, initial=_none):
             out, acc = [], None
+            if initial is not _none and initial is not None:
+                acc = initial
+                out.append(acc)
             for x in iterate(I, it):
                 acc = x if acc is None else (binop(I, ast.Add(), acc, x) if func is None else I.call(func, [acc, x], {}))
                 out.append(acc)
@@ -1844,7 +1890,19 @@ def _math(I, name):
     if name in ("ravel", "flatten"):
         return lambda x: Vec(_flat(x if not isinstance(x, (list, tuple)) else Vec(x)))
     if name == "reshape":
-        return lambda x, sh: _build(_flat(x), _toshape(sh))
+        def reshape(x, sh, **k):
+            fl, sh = _flat(x if not isinstance(x, (list, tuple)) else Vec(x)), list(_toshape(sh))
+            if sh.count(-1) == 1:
+                rest = 1
+                for n_ in sh:
+                    rest *= n_ if n_ != -1 else 1
+                if rest == 0 or len(fl) % rest:
+                    raise SymRaise("ValueError", "cannot reshape array")
+                sh[sh.index(-1)] = len(fl) // rest
+            elif -1 in sh:
+                raise SymRaise("ValueError", "can only specify one unknown dimension")
+            return _build(fl, tuple(sh))
+        return reshape
     if name == "diag":
         def diag(x):
             v = _flat(x)
@@ -2023,7 +2081,16 @@ def _numpy_more(I, name):
     if name in ("full_like", "empty_like"):
         return lambda v, val=sp.Integer(0), **k: ew(lambda x: val, v)
     if name == "cumsum":
-        def cumsum(v, **k):
+        def cumsum(v, axis=None, **k):
+            v = _tovec(v)
+            if axis is not None and isinstance(v, Vec) and len(_vshape(v)) > 1:
+                if concrete_int(axis) != 0:
+                    raise AnalysisError("cumsum along an inner axis")
+                out, acc = [], None
+                for row in v.items:
+                    acc = row if acc is None else binop(I, ast.Add(), acc, row)
+                    out.append(acc)
+                return Vec(out)
             out, acc = [], sp.Integer(0)
             for x in flat(v):
                 acc = binop(I, ast.Add(), acc, x); out.append(acc)
